@@ -372,7 +372,8 @@ def parse_statement(line):
         if k2 < 0:
             break
         tail = rhs[k2 + 4:]
-        if tail.startswith("[") or tail.startswith("unwind"):
+        if tail.startswith("[") or tail.startswith("unwind") or re.match(r"bb\d+$", tail.strip()):
+            # `f(..) -> bbN` (one unlabelled successor): a diverging call whose only edge is the clean-up block
             arrow = k2
             break
         start = k2 + 1
